@@ -90,6 +90,9 @@ def quiet():
 # --------------------------------------------------------------------------
 def to_val(v):
     """stored Python value -> model value (sexp); 'other' when outside the modelled types"""
+    if type(v) is tuple and len(v) == 2 and all(isinstance(x, int) and not isinstance(x, bool) and 0 <= x < 65536 for x in v):
+        # a (group, element) pair is pydicom's other spelling of ONE tag (what `Tag((g, e))` means)
+        return ["int", (v[0] << 16) | v[1]]
     t = tr.to_val(v)
     if t is None:
         return "none"
@@ -106,13 +109,15 @@ def to_val(v):
 def raw_of(j):
     """JSON raw value -> Python"""
     if isinstance(j, dict):
-        return j["s"]
+        return tuple(j["t"]) if "t" in j else j["s"]
     return j
 
 
 def raw_json(v):
     if isinstance(v, str):
         return {"s": v}
+    if isinstance(v, tuple):
+        return {"t": list(v)}
     return v
 
 
@@ -177,6 +182,9 @@ def g_tag(rng):
 
 def g_at(rng):
     r = rng.random()
+    if r < 0.10:
+        t = g_tag(rng)
+        return (t >> 16, t & 0xFFFF)  # one tag, written as a (group, element) pair
     if r < 0.25:
         return g_tag(rng)
     n = rng.choice([0, 1, 2, 5]) if r < 0.9 else rng.randrange(0, 40)
@@ -207,7 +215,12 @@ def g_param(rng, kw, vr):
     if vr == "LO":
         return g_lo(rng)
     if vr == "AT":
-        return g_at(rng)
+        v = g_at(rng)
+        if isinstance(v, tuple) and kw != "OffendingElement":
+            # N_GET.AttributeIdentifierList has a setter that reads any sequence as a list of tags: the pair spelling
+            # is only unambiguous for the plain (0000,0901) Offending Element parameter
+            v = (v[0] << 16) | v[1]
+        return v
     raise KeyError(kw)
 
 
@@ -420,6 +433,8 @@ def canon_raw(kw, vr, raw):
     if vr == "AT":
         if isinstance(raw, int):
             return ["int", raw]
+        if isinstance(raw, tuple):
+            return ["int", (raw[0] << 16) | raw[1]]
         if len(raw) == 0:
             return "none"
         if len(raw) == 1:
